@@ -4,6 +4,7 @@
 package verifhook
 
 import (
+	"net"
 	"sync/atomic"
 )
 
@@ -19,4 +20,20 @@ func At(point string) {
 	if fn, ok := hook.Load().(func(string)); ok && fn != nil {
 		fn(point)
 	}
+}
+
+var wrap atomic.Value // of func(net.Conn) net.Conn
+
+// InstallWrapConn sets the function which wraps every accepted connection.
+func InstallWrapConn(fn func(c net.Conn) net.Conn) {
+	wrap.Store(fn)
+}
+
+// WrapConn returns the connection wrapped by the installed function.
+func WrapConn(c net.Conn) net.Conn {
+	if fn, ok := wrap.Load().(func(net.Conn) net.Conn); ok && fn != nil {
+		return fn(c)
+	}
+
+	return c
 }
